@@ -76,7 +76,8 @@ class FlaskEnableCSRFProtection(
                     flows_into_csrf_protect = map(
                         self._flows_into_csrf_protect, named_targets
                     )
-                    if named_targets and not all(flows_into_csrf_protect):
+                    # every target names the same app object: one protected name is enough
+                    if named_targets and not any(flows_into_csrf_protect):
                         new_stmt = cst.parse_statement(
                             f"csrf_{named_targets[0].value} = CSRFProtect({named_targets[0].value})"
                         )
@@ -97,9 +98,10 @@ class FlaskEnableCSRFProtection(
         for access in accesses:
             maybe_arg = self.is_argument_of_call(access.node)
             maybe_call = self.get_parent(maybe_arg) if maybe_arg else None
-            if (
-                maybe_call
-                and self.find_base_name(maybe_call) == "flask_wtf.csrf.CSRFProtect"
+            # `flask_wtf` re-exports the class
+            if maybe_call and self.find_base_name(maybe_call) in (
+                "flask_wtf.csrf.CSRFProtect",
+                "flask_wtf.CSRFProtect",
             ):
                 return True
         return False
